@@ -777,6 +777,7 @@ func ownershipRules(c *Ctx, r *Report) {
 	checkGlobals(c, r)
 	checkSharedSlices(c, r)
 	checkOutputBuffers(c, r)
+	checkSyncState(c, r)
 	// the Info handed out by Config.Get shares no map or list with the
 	// configuration: it is the destination of the deep-copying base merge
 	// (rules of C13)
@@ -788,9 +789,10 @@ func ownershipRules(c *Ctx, r *Report) {
 }
 
 func checkC11(c *Ctx, r *Report) {
-	r.Rules = []string{"W1 deep-fresh plan (points-to)", "W2 prepare boundary / post-prepare-only writes", "W3 Info-own writes idempotent when reachable from ConventionalFileName", "W4 no shared map update, Validate/Get read-only, merge aliasing", "W5 no file-system mutation outside the CLI", "G1 globals written only under the lock", "G2 atomics", "G3 no goroutine", "G4 output buffers are fresh and do not escape", "W1-no-inplace-sort caller-owned lists are not reordered in place", "W3-shared-slice no element store / append-on-reslice into configuration lists (template helpers included)", "fixture"}
+	r.Rules = []string{"W1 deep-fresh plan (points-to)", "W2 prepare boundary / post-prepare-only writes", "W3 Info-own writes idempotent when reachable from ConventionalFileName", "W4 no shared map update, Validate/Get read-only, merge aliasing", "W5 no file-system mutation outside the CLI", "G1 globals written only under the lock", "G2 atomics", "G3 no goroutine", "G4 output buffers are fresh and do not escape", "W1-no-inplace-sort caller-owned lists are not reordered in place", "W3-shared-slice no element store / append-on-reslice into configuration lists (template helpers included)", "G1-init-only no package-level write reachable from an operation", "G1-once a once-function touches package-level state only", "G4-pool an object handed back to a pool is dead", "fixture"}
 	r.Explanation = "Ownership/effect analysis over go/ssa. The channels through which one operation on a parsed configuration could influence a later one are enumerated — memory shared between the Info values Config.Get hands out (slice backing arrays and pointees; maps are re-made), package-level variables, the file system, and reuse of one Info for file name then package — and each is closed structurally: (W1) a field-sensitive inclusion-based points-to analysis of package files proves every *Content of the returned plan and the *ContentFileInfo it holds are allocated during the call and that no store in the planner goes through a caller-owned object; (W2) nfpm.PrepareForPackager replaces info.Contents by that plan and every write to a Content/ContentFileInfo in a packager is only reachable through call sites dominated by the prepare call, never from ConventionalFileName/Validate/Get; (W3) writes to the Info's own fields reachable from ConventionalFileName are override copies, translations through an idempotent table, or default filling; (W4) no update of a map or slice element shared with the configuration, Validate/Get do not write, and no overridable field is a pointer mergo would merge through; (W5) no file-system mutation outside the CLI; (G1-G3) globals only under the lock, atomics consistent, no goroutines. This decides absence of the influence channels; byte identity of the outputs then follows only with C07's assumptions."
 	r.Explanation += " (G4) every buffer under an archive or compressor writer is a fresh local or reset before use, and the bytes of a pooled buffer do not escape. (W1-no-inplace-sort) sort.Sort and its relatives never get a caller-owned list. (W3-shared-slice) parameters of template FuncMap functions count as configuration-owned lists."
+	r.Explanation += " (G1-init-only) no function reachable from an operation entry point (parsing, Config.Get/Validate, nfpm.Get, preparing, every packager method) writes a package-level variable, locked or not: nfpm.Get reads the registry without the lock. (G1-once) the function handed to sync.Once.Do stores only into package-level variables or its own locals. (G4-pool) a value handed to sync.Pool.Put is neither returned nor stored by that function, nor used after a non-deferred Put."
 	r.Assumptions = []string{
 		"mergo v1.0.1 semantics: maps are re-made in the destination, slice headers and pointers are copied (sharing their targets), nested pointers are dereferenced and merged in place",
 		"slices produced by the YAML decoder have cap == len, so appending to Info.Contents never writes into the parsed configuration's backing array",
@@ -800,9 +802,10 @@ func checkC11(c *Ctx, r *Report) {
 }
 
 func checkC12(c *Ctx, r *Report) {
-	r.Rules = []string{"W1-W4 no write to memory shared between concurrently packaged Infos", "G1 globals written only under the lock", "G2 atomics", "G3 no goroutine", "G4 output buffers are fresh and do not escape", "W1-no-inplace-sort caller-owned lists are not reordered in place", "W3-shared-slice no element store / append-on-reslice into configuration lists (template helpers included)", "fixture"}
+	r.Rules = []string{"W1-W4 no write to memory shared between concurrently packaged Infos", "G1 globals written only under the lock", "G2 atomics", "G3 no goroutine", "G4 output buffers are fresh and do not escape", "W1-no-inplace-sort caller-owned lists are not reordered in place", "W3-shared-slice no element store / append-on-reslice into configuration lists (template helpers included)", "G1-init-only no package-level write reachable from an operation", "G1-once a once-function touches package-level state only", "G4-pool an object handed back to a pool is dead", "fixture"}
 	r.Explanation = "A data race needs two goroutines, one location and at least one write. The locations two concurrent Package calls (each on the Info obtained for its format) can both reach are the part of the configuration graph that Config.Get shares between Infos, package-level variables, and library internals. The check decides that module code writes none of the first two: the ownership analysis of C11 (points-to for the prepared plan, post-prepare-only content writes, Info-own writes, no shared map/element update) shows no store into memory reachable from two Infos; every package-level variable is written only under the registry lock (unlocked reads of the registry race only with registration, which the property's quantifier excludes) and appended to only when append must copy; fields accessed atomically are accessed only atomically; module code starts no goroutine. Interleavings are not explored: the argument is absence of shared writes."
 	r.Explanation += " (G4) every buffer under an archive or compressor writer is a fresh local or reset before use, and the bytes of a pooled buffer do not escape. (W1-no-inplace-sort) sort.Sort and its relatives never get a caller-owned list. (W3-shared-slice) parameters of template FuncMap functions count as configuration-owned lists."
+	r.Explanation += " (G1-init-only) no function reachable from an operation entry point (parsing, Config.Get/Validate, nfpm.Get, preparing, every packager method) writes a package-level variable, locked or not: nfpm.Get reads the registry without the lock. (G1-once) the function handed to sync.Once.Do stores only into package-level variables or its own locals. (G4-pool) a value handed to sync.Pool.Put is neither returned nor stored by that function, nor used after a non-deferred Put."
 	r.Assumptions = []string{
 		"mergo v1.0.1 semantics (see C11)",
 		"pgzip, zstd and go-crypto are internally synchronised (library property)",
@@ -1234,4 +1237,166 @@ func funcMapFuncs(c *Ctx) map[*ssa.Function]bool {
 		})
 	}
 	return out
+}
+
+// operationRoots: the entry points of the operations the isolation and
+// concurrency properties quantify over - parsing, Config.Get / Validate,
+// nfpm.Get, preparing, and every packager method.
+func operationRoots(c *Ctx) []*ssa.Function {
+	var roots []*ssa.Function
+	add := func(f *ssa.Function) {
+		if f != nil {
+			roots = append(roots, f)
+		}
+	}
+	for _, name := range []string{"Get", "Validate", "PrepareForPackager", "WithDefaults", "Parse", "ParseFile", "ParseWithEnvMapping", "ParseFileWithEnvMapping", "Enumerate"} {
+		add(c.Func("", name))
+	}
+	for _, fn := range c.ModFuncs {
+		if fn.Signature.Recv() != nil && isPtrToNamed(fn.Signature.Recv().Type(), modPath, "Config") && fn.Parent() == nil {
+			add(fn)
+		}
+	}
+	for _, pk := range c.Packagers {
+		add(pk.Package)
+		add(pk.FileName)
+		for _, fn := range c.ModFuncs {
+			if fn.Signature.Recv() != nil && fn.Parent() == nil && c.funcPkgPath(fn) == pk.PkgPath && pk.Package != nil && pk.Package.Signature.Recv() != nil && types.Identical(fn.Signature.Recv().Type(), pk.Package.Signature.Recv().Type()) {
+				add(fn)
+			}
+		}
+	}
+	return roots
+}
+
+// checkSyncState: three ways in which synchronised package-level state lets
+// one operation reach into another although every single access is "safe".
+//
+// (G1-init-only) the registry is read without the lock by nfpm.Get; that is
+// only sound because registration happens at initialisation. No function that
+// writes a package-level variable (under the lock or not) is reachable from
+// an operation.
+//
+// (G1-once) the function handed to a sync.Once runs for the first operation
+// only: it may touch package-level state, never the state of the operation
+// that happens to come first (a default stored into that operation's Info).
+//
+// (G4-pool) an object handed back to a sync.Pool is dead: it is not returned
+// or stored by the function that hands it back (deferred Put), nor used after
+// a Put.
+func checkSyncState(c *Ctx, r *Report) {
+	roots := operationRoots(c)
+	reach := c.Reach(roots...)
+	var scope []*ssa.Function
+	for _, fn := range sortedFuncs(c, reach) {
+		if c.isModuleFunc(fn) && !strings.HasPrefix(c.funcPkgPath(fn), modPath+"/internal/cmd") {
+			scope = append(scope, fn)
+		}
+	}
+	hits := scanGlobalWrites(c, scope)
+	for _, h := range hits {
+		r.Fail("G1-init-only", h.Detail+" in "+c.funcKey(h.Fn)+" is reachable from an operation", c.instrPos(h.In),
+			"a package-level variable is written while configurations are parsed or packages built: unlocked readers (nfpm.Get reads the registry without the lock) race with it, and an earlier operation changes what a later one sees")
+	}
+	r.Pass("G1-init-only", fmt.Sprintf("%d functions reachable from %d operation entry points", len(scope), len(roots)), "-", "none writes a package-level variable")
+	if len(roots) < 12 {
+		r.Fail("instance-floor", "G1-init-only roots", "-", fmt.Sprintf("only %d operation entry points found", len(roots)))
+	}
+
+	nOnce, nPool := 0, 0
+	for _, fn := range c.ModFuncs {
+		if strings.HasPrefix(c.funcPkgPath(fn), modPath+"/internal/cmd") {
+			continue
+		}
+		forEachInstr(fn, func(in ssa.Instruction) {
+			ci, ok := in.(ssa.CallInstruction)
+			if !ok {
+				return
+			}
+			o := calleeObj(ci)
+			if o == nil || o.Pkg() == nil || o.Pkg().Path() != "sync" {
+				return
+			}
+			sig, _ := o.Type().(*types.Signature)
+			if sig == nil || sig.Recv() == nil {
+				return
+			}
+			switch {
+			case o.Name() == "Do" && isNamed(derefType(sig.Recv().Type()), "sync", "Once"):
+				nOnce++
+				args := ci.Common().Args
+				bad := ""
+				if mc, isMC := args[len(args)-1].(*ssa.MakeClosure); isMC {
+					body := mc.Fn.(*ssa.Function)
+					forEachInstr(body, func(i2 ssa.Instruction) {
+						st, isSt := i2.(*ssa.Store)
+						if !isSt || bad != "" {
+							return
+						}
+						if rootGlobal(st.Addr) != nil {
+							return
+						}
+						if al := allocOf(st.Addr); al != nil && al.Parent() == body {
+							return
+						}
+						bad = fmt.Sprintf("the store at %s writes %s", c.instrPos(st), shorten(valueExpr(c, st.Addr, 0), 60))
+					})
+				}
+				r.Check(bad == "", "G1-once", fmt.Sprintf("once#%d in %s touches package-level state only", nOnce, c.funcKey(fn)), c.instrPos(in),
+					"the once-function runs for the first caller only, but "+bad+", which belongs to the calling operation: the first operation gets the effect and every later one does not")
+			case o.Name() == "Put" && isNamed(derefType(sig.Recv().Type()), "sync", "Pool"):
+				nPool++
+				args := ci.Common().Args
+				v := args[len(args)-1]
+				if mi, isMI := v.(*ssa.MakeInterface); isMI {
+					v = mi.X
+				}
+				_, deferred := in.(*ssa.Defer)
+				bad := ""
+				aliases := map[ssa.Value]bool{v: true}
+				if v.Referrers() != nil {
+					for _, ref := range *v.Referrers() {
+						if phi, isPhi := ref.(*ssa.Phi); isPhi {
+							aliases[phi] = true
+						}
+					}
+				}
+				for a := range aliases {
+					if a.Referrers() == nil {
+						continue
+					}
+					for _, ref := range *a.Referrers() {
+						switch x := ref.(type) {
+						case *ssa.Return:
+							bad = fmt.Sprintf("it is returned at %s", c.instrPos(x))
+						case *ssa.Store:
+							if x.Val == a && allocOf(x.Addr) == nil {
+								bad = fmt.Sprintf("it is stored at %s", c.instrPos(x))
+							}
+						default:
+							if !deferred && ref != in && instrDominates(in, ref) {
+								if _, isDbg := ref.(*ssa.DebugRef); !isDbg {
+									bad = fmt.Sprintf("it is used at %s after the Put", c.instrPos(ref))
+								}
+							}
+						}
+					}
+				}
+				// returns spilled through result cells (functions with defers)
+				for _, b := range fn.Blocks {
+					if ret, isRet := b.Instrs[len(b.Instrs)-1].(*ssa.Return); isRet {
+						for _, res := range retResults(ret) {
+							if aliases[res] {
+								bad = fmt.Sprintf("it is returned at %s", c.instrPos(ret))
+							}
+						}
+					}
+				}
+				r.Check(bad == "", "G4-pool", fmt.Sprintf("pool put#%d in %s: the object is dead afterwards", nPool, c.funcKey(fn)), c.instrPos(in),
+					"the object is handed back to the pool, yet "+bad+": a concurrent or later operation gets the same object from the pool and both write it")
+			}
+		})
+	}
+	r.Count("sync_once_calls", nOnce)
+	r.Count("sync_pool_puts", nPool)
 }
